@@ -271,7 +271,8 @@ pub open spec fn sp_xz_footer_ok(t: Seq<u8>, index_size: nat, check: u8) -> bool
 /// a whole single-stream .xz file
 #[verifier::opaque]
 pub open spec fn sp_xz(f: Seq<u8>) -> XzRes {
-    if !sp_xz_header_ok(f) { XzRes::Bad }
+    // 0x0A (SHA-256) is a check the format defines but the supported subset does not: refused outright (C18)
+    if !sp_xz_header_ok(f) || f[7] == 0x0Au8 { XzRes::Bad }
     else {
         let check = f[7];
         match sp_xz_blocks(f.skip(12), check, Seq::<RecS>::empty(), Seq::<u8>::empty(), 0) {
